@@ -206,8 +206,15 @@ def queries(tier):
     cfgs = [("m2b3", 2, 3), ("m2b2", 2, 2)] if quick else [("m2b3", 2, 3), ("m2b2", 2, 2), ("m3b5", 3, 5)]
     for tag, mps, buf in cfgs:
         f = (lambda mps=mps, buf=buf: BulkOutHarness(mps, buf))
-        K = 22 if quick else 30
+        K = 20 if quick else 28
         qs.append(Query(f"bmc_{tag}", f, K, timeout=900,
                         desc=f"mps={mps} buffer={buf}: host schedule, data, consumer ready all free"))
-        qs.append(Query(f"cosim_{tag}", f, 0, kind="cosim", cosim_cycles=300 if quick else 2000))
+        if not quick:
+            # deeper restricted layer: consumer always ready, responses exactly one cycle after rx_complete (HS timing)
+            qs.append(Query(f"bmc_hs_ready_{tag}", f, 36, timeout=900, covers=[], required=False,
+                            layer={"ready": 1, "resp_go": 1, "tok_rfr_go": 1},
+                            desc=f"mps={mps} buffer={buf}: restricted layer -- consumer always ready, response strobes "
+                                 "at the earliest cycle (high-speed timing); best effort"))
+        if tag == "m2b3" or not quick:
+            qs.append(Query(f"cosim_{tag}", f, 0, kind="cosim", cosim_cycles=100 if quick else 600))
     return qs
